@@ -47,7 +47,7 @@ CHECKS["C14"] = dict(
    ref="C14")
 CHECKS["C01"] = dict(
    technique="reference-decoder monitor: independent ISO 18004 reader (function patterns, BCH, unmask, de-interleave, RS syndromes, segment/terminator/pad parse) run on the pixels of every symbol the real encoder emits",
-   text="Exploration: one symbol at capacity for each of the 160 (version, level) layouts, capacity boundaries cap-1/cap/cap+1 in all three modes (60 boundaries quick, all 480 thorough), random contents in four modes, hostile inputs (signs, spaces, invalid UTF-8, multi-byte), empty content; all 8 masks observed.",
+   text="Exploration: one symbol at capacity for each of the 160 (version, level) layouts, capacity boundaries cap-1/cap/cap+1 in all three modes (160 boundaries quick, all 480 thorough), random contents in four modes, hostile inputs (signs, spaces, invalid UTF-8, multi-byte and truncating runes), empty content, equal-bit-count mode pairs back to back, hash-collision pairs, rejected calls interleaved, retained results re-read; all 8 masks observed.",
    note="trusted: block table, alignment formula, BCH generators, mask predicates in refdec/qr.go (written from ISO 18004 / Nayuki, independent of /repo)",
    ref="C01")
 CHECKS["C02"] = dict(
@@ -87,12 +87,12 @@ CHECKS["C13"] = dict(
    ref="C13")
 CHECKS["C15"] = dict(
    technique="offline history checker: digests recorded by one-shot, long-lived and ordered-pair processes checked against the sequential model 'the digest of a request is a constant'; aliasing probes; retained-result re-hash; cache hook state log",
-   text="Exploration: request pool over all symbologies with one QR and one DataMatrix request per distinct Reed-Solomon degree; fresh one-shot processes, long-lived histories (ascending/descending/random order, repetitions, retained barcodes re-hashed at the end), every ordered pair of QR degrees (and DataMatrix degrees in thorough) in fresh processes; []byte aliasing probes on Aztec.",
+   text="Exploration: request pool over all symbologies with one QR and one DataMatrix request per distinct Reed-Solomon degree, the same content under varied parameters, and the WithColor entry point of every family; fresh one-shot processes, long-lived histories (ascending/descending/random order, repetitions, retained barcodes re-hashed at the end), every ordered pair of QR degrees (and DataMatrix degrees in thorough) and QR equal-bit-count mode pairs in fresh processes; []byte aliasing and spare-capacity probes on Aztec.",
    note="trusted: SHA-256 digest over bounds, pixels and accessors; hook utils/verif_on.go for the cache-state log",
    ref="C15")
 CHECKS["C16"] = dict(
    technique="Go race detector over repeated cold-start concurrent workloads in fresh processes + digest comparison against a sequential baseline + state-based goroutine-leak verdict + cache-invariant hook (separate sink-on pass)",
-   text="Exploration of schedules: 24 (quick) / 300 (thorough) fresh -race processes over the grid goroutines {2..64} x GOMAXPROCS {1..16}; the concurrent calls are the first library calls in each process; any race report, digest difference, panic, deadlock or blocked library goroutine is a violation.",
+   text="Exploration of schedules: per run 24 (quick) / 300 (thorough) fresh -race processes over the grid goroutines {2..64} x GOMAXPROCS {1..16}, each with a cold-start focus (RS-degree climb, Aztec 8/10/12-bit, PDF417, big DataMatrix/QR, 1D), plus 48 / 400 'micro' processes of cheap cold starts per 1D/small package and free-running streams of large Aztec symbols; the concurrent calls are the first library calls in each process (pre-barrier objects avoid the focus package); shared barcodes, a shared scaled 2D barcode and shared RS encoders are read/used by all goroutines; any race report, digest difference from the sequential baseline, panic, deadlock (all goroutines blocked, confirmed by dump) or blocked library goroutine after quiescence is a violation.",
    note="the race detector sees only executed code; schedules are sampled; monitor adds no synchronisation in race-deciding runs",
    ref="C16")
 PENDING = {}
